@@ -541,9 +541,13 @@ class Graph(object):
     def reset(self):
         """Reset points to an empty list
         and current context to an empty dict.
+
+        The scale is reset to its initial value
+        (a scale set from the context of the flow is forgotten).
         """
         self._points = []
         self._cur_context = {}
+        self._scale = self._init_context["scale"]
 
     def __repr__(self):
         self._update()
